@@ -17,7 +17,7 @@ PROPS = {
         "technique": "static analysis: per-constructor path simulation of visitor overrides (traversal completeness) + pipeline def-use",
         "level_text": "Structural clauses only: every Par loop at any nesting depth reaches Check_ParallelizeLoop before code generation "
         "(traversal completeness of ParallelAnalysis and of the template visitors it is built on). Decided for all programs at once from the "
-        "source; does not decide that the SMT condition inside Check_ParallelizeLoop is the right one.",
+        "source; does not decide that the SMT condition inside Check_ParallelizeLoop is the right one. Also: effect lists are in evaluation order and the location-set transfer functions lose no read.",
         "level_note": "Trusted: the LoopIR ASDL text in core/LoopIR.py is the ADT; hook-naming convention of LoopIR_Do/LoopIR_Rewrite; "
         "soundness of Disjoint_Memory/Commutes is NOT decided.",
         "explanation": "For every subclass of LoopIR_Do/LoopIR_Rewrite and every traversal-hook override, each constructor K of the hook's "
@@ -33,7 +33,7 @@ PROPS = {
         "level_text": "Structural clauses only: (1) the name disambiguator records every identifier it issues (distinct Syms never share a printed "
         "name), (2) the printer's precedence table is a monotone embedding of Python's and operands are parenthesised by the left-assoc rule, "
         "(3) every semantic field of every LoopIR constructor is read by its printing case, (4) the printing dispatch is exhaustive. "
-        "Does not decide the print->parse->print fixpoint.",
+        "Does not decide the print->parse->print fixpoint. Also: every Sym-typed field the printer writes goes through the name environment, and is_valid_name admits only whole-string identifiers that are not Python keywords.",
         "level_note": "Trusted: reference Python operator order kept in the checker; ADT text. Not decided: that the parser accepts the text and rebuilds the same tree.",
         "explanation": "FRESHNAME: `while cand in R` searches must store the issued candidate in R. PREC: op_prec vs. reference order; recursive calls on "
         "lhs/rhs/arg carry level, level+1, unary; parenthesise iff level < context. PRINTFIELDS: per constructor case, every non-annotation ADT field is read. EXH on the four printer dispatches.",
@@ -48,7 +48,7 @@ PROPS = {
         "precedence table is a monotone embedding of C's and operands are parenthesised by the left-assoc rule; floor-semantics '/' and '%' reach C's truncating "
         "operators only behind a sign proof or through the floor helper; fresh C identifiers are registered; by-reference scalars are "
         "dereferenced consistently at the three sites that print them; window data pointers go through the memory's hook. Does not decide index "
-        "linearisation arithmetic, casts or window-struct contents.",
+        "linearisation arithmetic, casts or window-struct contents. Also: no operand text glued directly after a prefix minus in the C emitter (`--x` is a decrement), and the liveness visitors that place frees are exhaustive.",
         "level_note": "Trusted: reference C operator order in rules/names.py REF_C; ADT text. Arithmetic of strides/offsets not decided.",
         "explanation": "EXH on comp_s/comp_e/comp_cir/lift_to_cir/simplify_cir/coerce_e; PREC on op_prec + comp_e/comp_cir; DIVMOD: per operator in {/,%} the BinOp case must "
         "test the operator and reach C text only under a non-negativity proof or via _call_static_helper; FRESHNAME on new_varname; SCALARREF; WINDOWHOOK; BACKPIPE (precision/window/memory passes precede Compiler).",
@@ -62,7 +62,7 @@ PROPS = {
         "level_text": "Structural clauses: every compiled procedure (transitively) passes Parallel/Precision/Window/Memory analysis in that order before "
         "Compiler; the collectors of externs/memories/configs/sub-procedures visit every node that can hold what they collect (so every referenced global is "
         "emitted); direct reads are emitted only behind can_read(), writes/reduces only through the memory's hooks; call boundaries compare precision, memory "
-        "and window-ness and raise; type tables agree with the ADT. Does not decide that gcc accepts the text in general.",
+        "and window-ness and raise; type tables agree with the ADT. Does not decide that gcc accepts the text in general. Also: every non-control read in comp_e lies behind the can_read gate (scalars included); extern helpers with precision-dependent signatures have precision-dependent names, and float-only C functions are not emitted for f64 operands; no `--` from a glued prefix minus.",
         "level_note": "Trusted: ADT text; naming of the four backend passes. Not decided: C validity beyond the listed clauses.",
         "explanation": "BACKPIPE chain through compile_to_strings; TRAV on LoopIR_SubProcs/FindMems/FindExterns/FindConfigs/PrecisionAnalysis/WindowAnalysis; MEMGATE via must-dominance of a raising "
         "can_read guard over access_str; CALLBOUNDARY structural checks of the three call cases; TYPETABLES compares ctype/window shorthand/config ctyp/_typ_table with ADT constructors.",
@@ -76,7 +76,7 @@ PROPS = {
         "level_text": "Structural clauses: buffer liveness is closed under window aliasing (no free before a use through a window); each allocation registers one "
         "pending free, emitted after the last using statement and removed at emission, with scope exit asserting emptiness and every nested block bracketed by push/pop; "
         "every Memory class pairs its allocator with the matching deallocator and agrees on the scalar case; const is derived only from the alias-closed write "
-        "analysis; no truncating / or % on possibly negative numerators. Does not decide signed overflow or malloc sizes.",
+        "analysis; no truncating / or % on possibly negative numerators. Does not decide signed overflow or malloc sizes. Also: the bounds checker's SMT encoding of / and % (the only bounds check a procedure as written gets) is the floor quotient with both bounds.",
         "level_note": "Trusted: allocator/deallocator pairing table in rules/memory.py; ADT text.",
         "explanation": "WINALIAS(liveness): names entering the used-list must pass an alias resolver; FREEONCE: structural typestate of tofree; MEMPAIR: tokens in alloc/free return strings per class; CONSTQ; DIVMOD.",
         "assumptions": ["pairing table malloc/free, malloc_dram/free_dram, gemm_malloc/gemm_free, gemm_acc_malloc/gemm_acc_free, #define/#undef"],
@@ -89,7 +89,7 @@ PROPS = {
         "level_text": "Source-level purity, decided for every path at once: there is no statement in src/exo that mutates in place a list stored in an IR node "
         "(or an alias of one: through locals, closures, helper parameters, shape(), memoised results), no attribute store on an object that is not self or freshly "
         "constructed, and every write to module/class-level state is classified (memo caches, id counter, provenance store benign; static-memory allocation state not). "
-        "The rule is path-insensitive about exceptions (a write anywhere counts), so failing calls are covered. Claim is full up to the stated alias approximation.",
+        "The rule is path-insensitive about exceptions (a write anywhere counts), so failing calls are covered. Claim is full up to the stated alias approximation. Also: the result of a call through a function-valued parameter (a forwarding function, the identity by default) is not a fresh object — an attribute store on it is a store on the caller's cursor.",
         "level_note": "Approximation: IR lists are recognised by ADT sequence-field names (args, body, hi, idx, orelse, preds), .shape(), getattr and memo results; "
         "containers nested deeper than one level are not modelled; calls resolved by name (nested def, module, import, self-method).",
         "explanation": "MUT: forward may-taint over each function (sources: seq-field reads, shape(), getattr, memo results, tainted parameters by call-site summary, "
@@ -103,7 +103,7 @@ PROPS = {
         "technique": "static analysis: set-type inference with function/method/attribute summaries + order-sensitive-consumer rule with triage table; sorted-emission rule; id()/repr()/global-state rules",
         "level_text": "Structural clauses: no value of set type is consumed in an order-sensitive way in the compiler, rewrites, core, API or front end except at triaged "
         "sites whose consumer is order-insensitive or sorts; every collection emitted by compile_to_strings is sorted by name (or provably a singleton); nothing orders by "
-        "id()/hash(); repr(Sym)/Sym ids never reach printed or generated text; process-global state that flows into emitted text is classified. Does not decide z3's model choice in unification.",
+        "id()/hash(); repr(Sym)/Sym ids never reach printed or generated text; process-global state that flows into emitted text is classified. Does not decide z3's model choice in unification. Also: set iteration is checked in stdlib/, libs/ and platforms/ too, and through containers of sets.",
         "level_note": "Set typing is inferred from constructors, set algebra, and summaries of set-returning functions/methods/attributes (no full type inference); triage table in rules/determinism.py.",
         "explanation": "SETITER: infer set-typed expressions; every for/comprehension/list()/tuple()/join/pop/unpack over one must be in the triage table with its reason. SORTEDEMIT: the four emission loops "
         "sort with a key; _static_helpers singleton. IDORDER/REPRLEAK: expected-zero rules with positive fixtures. GLOBALSTATE: writes to module/class state triaged (D28 known).",
@@ -117,7 +117,7 @@ PROPS = {
         "level_text": "Structural clauses of find(): the child enumerator yields, for every constructor, exactly the ADT's child fields in declaration (= program) order; "
         "the search tries a position before descending, If.body before If.orelse before the block tail; every pattern constructor maps to the same-named LoopIR constructor; "
         "'#n' counts down once per match and selects the 0 position; no match raises; matcher dispatches are exhaustive and read every pattern field. "
-        "Navigation inverse laws (parent/child, next/prev, ...) are path arithmetic and are not decided.",
+        "Navigation inverse laws (parent/child, next/prev, ...) are path arithmetic and are not decided. Also: the `#n` suffix syntax accepted by the name shorthands (white space after `#`) is accepted by match_pattern's own expression (compared on the regular expressions' ASTs).",
         "level_note": "Trusted: ADT declaration order is program order for LoopIR; prefix matching of index lists in patterns is documented semantics (docs/Cursors.md) and is not flagged.",
         "explanation": "CHILDREN compares string arguments of _children_from_attrs per case with child_fields(K,{stmt,expr,w_access}); FINDORDER compares source order of recursive calls; PASTTOTAL; NOMATCH; EXH; MATCHFIELDS.",
         "assumptions": ["ADT field order = program order"],
@@ -129,7 +129,7 @@ PROPS = {
         "technique": "static analysis: per-constructor field coverage of both unification operands, length-guard rule for zips over IR lists, edit-scope and sibling-agreement rules, call-site assertion-discharge rule",
         "level_text": "Structural clauses of replace(): every constructor case of unification reads every semantic field of both operands; no two IR child lists are zipped without an "
         "established length relation; the statements replaced are exactly the statements unified; callee renamed before and aliasing checked after; hole-binding siblings reject a "
-        "second inequivalent binding; a primitive that mints a call must discharge the callee's assertions. Does not decide the integer-linear solve or the window case split.",
+        "second inequivalent binding; a primitive that mints a call must discharge the callee's assertions. Does not decide the integer-linear solve or the window case split. Also: every pairing of a callee-node field with the same block-node field is governed by the constructor dispatch only (no one-sided condition).",
         "level_note": "Trusted: ADT text; ignore-list of annotation fields (srcinfo, expression types, loop_mode, mem) in rules/fields.py.",
         "explanation": "UNIFYFIELDS on unify_stmts/unify_e; ZIPLEN on Unification.unify*/is_exact_e; REPLSCOPE on DoReplace; CALLPRED on DoReplace and DoInsertNoopCall (known findings D16); HOLESIB; EXH(unify_e); TRAV(_Find_Mod_Div_Symbols).",
         "assumptions": [],
@@ -142,7 +142,7 @@ PROPS = {
         "level_text": "Structural clauses: every primitive that inserts or deletes a configuration write or swaps a callee obtains the possibly-changed field set from "
         "Check_DeleteConfigWrite/Check_ExtendEqv and returns it; every API entry threads that set into Procedure(..., _mod_config=...) and Procedure.__init__ hands it to "
         "derive_proc; call_eqv reaches its edit only past `if not is_eqv: raise` on the result of get_strictest_eqv_proc(current callee, new) and passes the differing keys to "
-        "Check_ExtendEqv. Does not decide the global dataflow (globenv) or the SMT visibility conditions inside the two checks.",
+        "Check_ExtendEqv. Does not decide the global dataflow (globenv) or the SMT visibility conditions inside the two checks. Also: in the effect list of `Cfg.f = rhs` the reads of rhs precede the write (a write hides later reads of the same field), and the location-set transfer functions kill only what a write hides.",
         "level_note": "Trusted: names of the two configuration checks; discovery of configuration-touching primitives by construction of LoopIR.WriteConfig / replacement of Call.f / DoDeleteConfig.",
         "explanation": "CFGMOD (a) primitives, (b) API call sites, (c) Procedure.__init__; EQVGATE via must-facts on DoCallSwap.",
         "assumptions": [],
@@ -156,7 +156,7 @@ PROPS = {
         "per-field closure needs (a step is unioned into field K's relation iff K is not in its disturbed set; strict only when the set is empty; a newly seen field starts from a copy of the "
         "universal relation taken before the step is applied; every procedure is a node of every relation; queries report exactly the non-connecting fields; union/check act on roots); "
         "signature-changing operations (partial_eval, transpose, add_assertion, extracted sub-procedures) record no provenance and every other construction does, with the operation's own "
-        "procedure as origin. Does not prove the closure algebra over all histories (needs model checking/proof).",
+        "procedure as origin. Does not prove the closure algebra over all histories (needs model checking/proof). Also: nodes and representatives inside the union-find are compared by identity (`is`), never with LoopIR.proc's structural `==`.",
         "level_note": "EQVSHAPE uses metavariable AST patterns (sa/pat.py): robust to renaming locals, not to re-architecting the bookkeeping.",
         "explanation": "UFOWN enumerates every reference to _UF_* and every call of the four writer functions; EQVSHAPE 13 shape obligations; NOPROV classifies all 64 Procedure(...) sites.",
         "assumptions": [],
@@ -169,7 +169,7 @@ PROPS = {
         "level_text": "Structural clauses: set_precision/set_memory/set_window, parallelize_loop, rename and make_instr write only annotation fields (type/mem/is_window/src_type/as_tensor, loop_mode, "
         "name, instr); set_precision retypes reads and writes; add_assertion copies every field and only extends preds with a fragment parsed in the procedure's scope; partial_eval "
         "validates the bindings, substitutes literals for reads of bound index/bool arguments through the traversal-complete template rewriter and drops exactly the bound arguments; "
-        "signature-changing utilities cut provenance. Does not decide the value-level relation between p and its variant.",
+        "signature-changing utilities cut provenance. Does not decide the value-level relation between p and its variant. Also: the C index simplifier's algebraic identities (partial_eval puts literals such as 0 where they apply).",
         "level_note": "Trusted: ADT text; metavariable patterns for DoPartialEval.",
         "explanation": "ANNOTONLY computes string literals reaching _child_node/_child_block of an edit chain, update(...) keywords and returned dict keys; PREDSONLY; PEVAL; TRAV(DoPartialEval)+TRAVBASE; NOPROV; EXH(LoopIR_Rewrite).",
         "assumptions": [],
@@ -181,7 +181,7 @@ PROPS = {
         "technique": "static analysis: identity-by-printed-name rule with triaged site table; dominance (must-facts with branch conditions) of literal tests over every delete/move in simplify; exhaustiveness/traversal of the two rewriters",
         "level_text": "Structural clauses: every place where simplify (or a rewrite it relies on) decides expression identity through printed names is enumerated and classified; "
         "a loop or branch is deleted only on paths dominated by a literal test of its condition/bounds (value-sensitive for branches) or emptiness of its rewritten body, and the "
-        "dead-code primitives only behind a Check_*; the two rewriters dispatch exhaustively and traverse completely. Does not decide value preservation of the normal form or of the div/mod rules (integer arithmetic).",
+        "dead-code primitives only behind a Check_*; the two rewriters dispatch exhaustively and traverse completely. Does not decide value preservation of the normal form or of the div/mod rules (integer arithmetic). Also: the range of `x % c` is taken as [lo % c, hi % c] only when lo and hi lie in the same period of c.",
         "level_note": "Trusted: triage table NAME_TRIAGE in rules/simplify.py (defect / advisory / sanitised, one reason each).",
         "explanation": "NAMECONF enumerates str()/name() comparisons, dict keys and use_sym_id=False patterns; DELGUARD runs a must-analysis with branch facts over DoSimplify.map_s and the two dead-code primitives.",
         "assumptions": [],
@@ -194,7 +194,7 @@ PROPS = {
         "level_text": "Structural clauses: every parsed procedure passes TypeChecker -> CheckBounds -> Check_Aliasing unconditionally, on the same object, and recorded errors raise; "
         "per statement kind the bounds checker issues the obligations of the property (trip count before the loop assumption, positive allocation/argument sizes, accesses vs. shapes, "
         "call shapes, callee assertions under substitution, callee effects folded in, branch conditions); the proved formulas have the property's own shape and a failed proof is reported; "
-        "read, write and reduce effects through windows are translated to the underlying buffer; dispatches are exhaustive. Does not decide the SMT encoding of / and % or of strides.",
+        "read, write and reduce effects through windows are translated to the underlying buffer; dispatches are exhaustive. Does not decide the SMT encoding of / and % or of strides. Also: the SMT encoding of / and % is the floor quotient with both bounds; every effect value keeps one configuration write per field (the two branches of an `if` are merged, not concatenated); callee effects on several window arguments are translated as a fold.",
         "level_note": "Trusted: pysmt's is_valid/is_sat; ADT text. Patterns use metavariables (robust to renaming locals).",
         "explanation": "FRONTPIPE on Procedure.__init__; OBLIG on CheckBounds.map_stmts/__init__ per constructor case; BOUNDFORM on check_* helpers (relations normalised to < / <=); WINALIAS(bounds); EXH on typechecker and bounds dispatches; TRAV on _Check_Aliasing_Helper.",
         "assumptions": [],
@@ -208,7 +208,7 @@ PROPS = {
         "forwarder is composed exactly in order (newest first) into the accumulated forwarder, nothing is discarded, and what is returned is the last tree with a forwarder from the "
         "original to that tree; rewriter objects keep self.fwd/self.ir in step on every exit; the three multi-edit helpers and _compose have the required shape; every recorded derivation "
         "carries a forwarder (three listed legacy constructors fall back to one that raises); Procedure.forward composes the chain oldest-first and cursor arguments are forwarded "
-        "implicitly through it. Does not decide the index arithmetic inside _forward_insert/_replace/_wrap/_move.",
+        "implicitly through it. Does not decide the index arithmetic inside _forward_insert/_replace/_wrap/_move. Also: every statement range a block forwarder builds is the image of the block's own two ends (linear arithmetic over start/stop/len).",
         "level_note": "Epoch typing gives no verdict for values it cannot type (TOP); the share of typed edit receivers is reported and must stay above 55 %. Helper summaries for "
         "_replace_reads/_writes/_pats are justified by FWDHELPERS.",
         "explanation": "FWDTHREAD: flow-sensitive typing Cursor(e)/IR(e)/Fwd(a->b) with epochs ORIG | age k; edit requires current receiver, ages all epochs; _compose requires matching middle epoch; returns must be (IR(current), Fwd(ORIG->current)).",
@@ -223,7 +223,7 @@ PROPS = {
         "its meaning requires (49 exported primitives + replace; audited table, Appendix A) and runs its post-conditions after the edit; loop-header fields (lo and hi) are both consulted where a loop is "
         "removed or re-shaped; structural comparison used as a guard is exact; identity is not decided by printed names except at triaged sites; solver verdicts are read with the right polarity and "
         "always acted upon; only the rewrite layer edits trees and only the API layer calls rewrites, so library schedules are compositions of guarded primitives; effect extraction and the copy/substitution "
-        "templates are exhaustive and traverse completely. Does not decide that the SMT conditions themselves imply equivalence, nor the arithmetic of each rewrite.",
+        "templates are exhaustive and traverse completely. Does not decide that the SMT conditions themselves imply equivalence, nor the arithmetic of each rewrite. Added after the seeding waves: the effect list is in evaluation order (operand reads before a statement's own effect), the location-set transfer functions kill only what a write hides (a reduce hides nothing), and the sibling SMT encodings of floor division state exactly R*q <= L < R*(q+1).",
         "level_note": "Trusted: the audited obligation table in rules/guard.py (what each primitive needs); names of Check_* functions. Obligations discharged inside loops/callbacks are checked for existence only ('has').",
         "explanation": "GUARD: facts call:/guard:/chk:<Check>:<fields>:<ops> collected on all paths to each edit site (and after the last edit); ZIPLEN/CMPFIELDS on LoopIR_Compare; NAMECONF triage; VERDICT on SMTSolver; VERDICTUSE on every verify() site; LAYER who-may-call; EXH/TRAV/BYPASS.",
         "assumptions": ["obligation table", "edit API names"],
@@ -236,7 +236,7 @@ PROPS = {
         "level_text": "Structural clauses: every shape-changing rewrite (expand/resize/fold/stage) passes its result to Check_Bounds after the last edit; primitives that introduce a call or rewrite "
         "its arguments re-run Check_Aliasing; allocation-scope guards of fission/specialize/sink/lift dominate their edits; code that is duplicated into a scope where its binders are already "
         "visible goes through Alpha_Rename; scope-environment builders handle every binder kind of the ADT; no rewrite edits a stale tree (FWDTHREAD), so no edit is silently dropped. "
-        "Does not decide that Check_Bounds' location sets are right.",
+        "Does not decide that Check_Bounds' location sets are right. Also: stage_mem's safety guards keep each bound condition unless that very condition was proved; the free-variable helper behind the scope guards sees buffers used through window and stride expressions; reuse_buffer requires the surviving buffer to be in scope.",
         "level_note": "Trusted: obligation table; ADT text.",
         "explanation": "GUARD rows tagged C04 (post Check_Bounds / Check_Aliasing, alloc_check, are_allocs_used_after_block, Alpha_Rename); BINDERS table (extract_env known D19); FWDTHREAD; TRAV on Alpha_Rename/SubstArgs/FreeVars.",
         "assumptions": [],
@@ -248,7 +248,7 @@ PROPS = {
         "technique": "static analysis: lint of every @instr (format keys, lane counts, stride assertions, trip counts) + lane-symbolic evaluation of the C fragment through a table of intrinsic semantics, compared with the Exo body term-by-term (no execution, no solver)",
         "level_text": "For every x86 instruction: the C template only uses keys the compiler supplies, register operands have the lane count of their register file, vector operands carry unit-stride "
         "assertions, the body writes as many lanes as the operand has; and for the instructions whose intrinsics are in the checker's table (58 of 60 today) the C fragment, evaluated per lane on symbolic operands, "
-        "yields exactly the per-lane terms of the body (modulo associativity/commutativity of + and *), for every admissible value of the mask/size parameters. Instructions outside the table are reported as unanalysed, not passed.",
+        "yields exactly the per-lane terms of the body (modulo associativity/commutativity of + and *), for every admissible value of the mask/size parameters. Instructions outside the table are reported as unanalysed, not passed. Also: every register memory admits only buffers whose last dimension is exactly one register (the invariant its window code relies on when it drops the lane offset).",
         "level_note": "Trusted base: the intrinsic-semantics table in rules/instr.py (printed in evidence), written from the Intel intrinsics guide; three of the recorded mismatches were additionally confirmed on this host. "
         "Floating-point rounding and exceptions are not modelled (terms are over reals); ui16 saturation is modelled as a distinct operator.",
         "explanation": "INSTRLINT per instruction; INSTRSPEC: parse C (decl/assign/call/cast/address-of/compound literal), evaluate through the table to per-lane terms, evaluate the Exo loop body with ast, enumerate size parameters from the assertions, compare states.",
